@@ -18,6 +18,7 @@ def run(repo, res, tier):
     langrules.rule_s1(repo, res, an, "own")
     langrules.rule_s2(repo, res, an)
     langrules.rule_q1(repo, res, an)
+    langrules.rule_fold(repo, res, an)
     # the text str() gives a number (1E+3 for Decimal, 1e-07 for float) and the zone-offset times the ODL encoder
     # writes must be lexed as one token, or the value is not read back
     langrules.rule_lex1(repo, res, an, kinds=("number as str() writes it", "date/time"))
